@@ -362,7 +362,7 @@ func c08DrawSeed(t *testing.T, rt *rapid.T) (*c08Seed, error) {
 			keys = append(keys, getKey(kname, (first+i)%8))
 		}
 	}
-	kinds := []string{"disc", "disc+range", "disc+range3", "issue", "issue+blind"}
+	kinds := []string{"disc", "disc+range", "disc+range3", "disc+range2", "issue", "issue+blind"}
 	if withRevKey {
 		kinds = append(kinds, "disc+nonrev", "disc+nonrev+range", "disc+nonrev")
 	}
